@@ -213,6 +213,9 @@ async fn append(
 
 async fn spawn(engine: nu::Engine, store: Store, task: GeneratorTask) {
     let start = append(store.clone(), &task, "start", None).await.unwrap();
+    // `<topic>.start` is visible, the input subscription is not taken yet
+    #[cfg(xs_verif)]
+    crate::verif::apoint("gen.started", task.id.to_u128()).await;
 
     use futures::StreamExt;
     use tokio_stream::wrappers::ReceiverStream;
